@@ -27,6 +27,8 @@ EXPLANATION = (
     ' (R6) timer typestate: at most one live timeout. (R7) one lock per object and loop: _ensure_lock creates a lock only when none exists or the loop changed, and nobody else rebinds _lock / _running_loop. (R8) datagram transport with keep-alive off: on no path is the lock released with the socket of this activation still open while another task can run.'
     ' (R9) the transport is written only by _send_request (callbacks do not transmit).'
     " (R1, foreign-writer) the in-flight attributes of a protocol object are assigned only by the protocol classes' own methods, never through another reference (e.g. protocol.command = ... in execute)."
+    ' (R10, shared with C05.R5) every scheduled timeout waits self.timeout: no transmission is abandoned, and the lock handed on, while its answer is still due.'
+    ' (R11, shared with C08.R6) no loop callback schedules a method of the protocol object after completing the response future.'
 )
 
 INFLIGHT = ("command", "response_future", "_partial_data", "_partial_missing", "_timer")
@@ -46,6 +48,12 @@ def check(ctx: Ctx, rep: Report):
     rep.rule("C06.R8", "datagram transport with keep-alive off: the socket is closed before the lock is handed to another task", 1)
     rep.rule("C06.R7", "one lock per protocol object and event loop: _ensure_lock creates a lock only when none exists or the running loop changed", 2)
     r7(ctx, rep)
+    rep.rule("C06.R10", "a transmission is not abandoned (and the lock not handed to the next caller) before its configured timeout: every scheduled timeout waits self.timeout (shared with C05.R5)", 1)
+    from .proto import timeout_delays
+    timeout_delays(ctx, rep, "C06.R10")
+    rep.rule("C06.R11", "nothing is scheduled on the protocol object after a request was completed: a deferred close / timeout would cancel the next lock holder's request (shared with C08.R6)", 6)
+    from .proto import no_deferred_after_completion
+    no_deferred_after_completion(ctx, rep, "C06.R11")
     foreign_writers(ctx, rep, "C06.R1")
     ms = ctx.memo("maysuspend", lambda: MaySuspend(ctx.prog, ctx.res))
     for ci in proto_classes(ctx):
